@@ -1,5 +1,8 @@
 // C13: modSwitchFromTorus32 / approxPhase / modSwitchToTorus32 round to nearest exactly; t32tod/dtot32 identities
 #include "vh.hpp"
+#include <thread>
+#include <atomic>
+#include <sched.h>
 VH_MAIN_GLOBALS
 using namespace vh;
 
@@ -139,6 +142,32 @@ int main(int argc, char **argv) {
             snprintf(cell, sizeof cell, "allM:M=2^%d", lgM); out.cell(cell);
         }
         out.sample(J().s("mode", "allM: boundary phases (k, k+1/2)*2^32/M +-3, range ends, all mu").i("maxM", maxM).u("exact_ties_seen", n_ties));
+    } else if (mode == "threads") {
+        // the same scalar functions called at the same time from several threads, each with its own message space (a thread that
+        // bootstraps with 2N while another decodes with 8): every result is judged by the exact oracle; the same binary runs
+        // under ThreadSanitizer
+        int T = args.i("threads", 6); uint64_t iters = (uint64_t) args.d("iters", 2e6);
+        const int32_t Ms[] = {2048, 8, 3, 2, 1024, 1000, 16, 32767, 1 << 20, 5, 4096, 7};
+        std::atomic<uint64_t> bad{0}, done{0}; std::atomic<int> ready{0};
+        struct W { uint32_t phase; int32_t M, r; Torus32 ap, enc; int kind; }; std::vector<W> wit(T);
+        std::vector<std::thread> th;
+        for (int t = 0; t < T; t++) th.emplace_back([&, t] {
+            Rng r(seed * 977 + t); const int32_t M = Ms[t % 12];
+            ready++; while (ready.load() < T) sched_yield();
+            for (uint64_t i = 0; i < iters; i++) {
+                uint32_t ph = r.u32(); int32_t q = modSwitchFromTorus32((Torus32) ph, M); Torus32 ap = approxPhase((Torus32) ph, M);
+                bool ok = q >= 0 && q < M;
+                if (ok) { unsigned __int128 x = (unsigned __int128) ph * (uint32_t) M, tg = (unsigned __int128) (uint32_t) q << 32, md = (unsigned __int128) (uint32_t) M << 32, d = x >= tg ? x - tg : tg - x; if (d > md - d) d = md - d; ok = d <= ((unsigned __int128) 1 << 31); }
+                Torus32 enc = ok ? modSwitchToTorus32(q, M) : 0;
+                if (ok && (ap != enc || modSwitchFromTorus32(enc, M) != q)) ok = false;
+                if (!ok) { if (bad++ == 0) wit[t] = {ph, M, q, ap, enc, 1}; }
+            }
+            done += iters; });
+        for (auto &x: th) x.join();
+        out.evaluations += done.load();
+        if (bad.load()) for (int t = 0; t < T; t++) if (wit[t].kind) { out.viol("rounding:wrong-result-when-threads-use-different-message-spaces", J().u("phase", wit[t].phase).i("M", wit[t].M).i("modSwitchFromTorus32", wit[t].r).i("approxPhase", wit[t].ap).i("threads", T).u("wrong_results", bad.load())); break; }
+        char c2[96]; snprintf(c2, sizeof c2, "threads:%d-threads-each-with-its-own-M", T); out.cell(c2, done.load());
+        out.sample(J().s("mode", "threads").i("threads", T).u("calls_per_thread", iters));
     } else if (mode == "conv") {
         // dtot32(t32tod(x)) == x for all / stratified x ; dtot32(d+k) == dtot32(d)
         int lg = args.i("log2count", 24);
